@@ -143,6 +143,12 @@ def check(ctx):
         elif v == 'KnownValue':
             inst = 'C01.2/known_value'
             x = m_digest(fields['digest'])
+            if x is None:
+                # the KnownValue digest impl looked through: from_image(to_cbor_data(tagged_cbor(value)))
+                a_ = m_call(fields['digest'], name='from_image', self_suffix='Digest')
+                i1 = m_call(a_[0], name='to_cbor_data') if a_ else None
+                i2 = m_call(i1[0], name='tagged_cbor') if i1 else None
+                x = i2[0] if i2 else None
             if x is not None and same(x, fields['value']):
                 ctx.ok(inst, site, 'digest = digest(value) of the stored value', sample=fmt(agg))
             else:
